@@ -1138,7 +1138,7 @@ func (g *Gen) switchStmt() *Stmt {
 				var e E
 				if r.Intn(3) == 0 {
 					e = g.expr(tagTy, 1)
-					if e.Const || strings.Contains(e.T, "HostLimit") || strings.Contains(e.T, "HostTyped") || strings.Contains(e.T, "HostGreeting") {
+					if e.Const || strings.Contains(e.T, "len(\"") || strings.Contains(e.T, "HostLimit") || strings.Contains(e.T, "HostTyped") || strings.Contains(e.T, "HostGreeting") {
 						// gc rejects constant cases of equal value: constants are plain literals here
 						e = g.lit(tagTy)
 					}
